@@ -86,7 +86,7 @@ def text_fp(data: bytes, addr: int = 0x1000):
     if r is None:
         return None
     toks, ln = r
-    return ("".join(t.text for t in toks), ln)
+    return ("".join(t.text for t in toks), ln, toks[0].text if toks else "")
 
 
 def il_fp(data: bytes, addr: int = 0x1000):
